@@ -2,5 +2,5 @@ SPECIFICATION SimSpec
 CONSTANT Leaky = FALSE
 CONSTANT MaxOrder = 3
 CONSTANT MaxCalls = 5
-INVARIANT DataUnchanged
+PROPERTY DataUnchanged
 CHECK_DEADLOCK FALSE
